@@ -857,3 +857,10 @@ v('C16', 'slash-slash-enters-block-comment-state', 'c16.lexer-tokenizer', (Z, ""
 				return multilineCommentState"""))
 v('C20', 'dual-projects-the-source-rows', 'exec.dual-where', (P, 'rs, err := ExecSelect(query, from)', 'rs, err := ExecSelect(query, query.from)'))
 v('C02', 'dual-projects-the-source-rows', 'exec.dual-where', (P, 'rs, err := ExecSelect(query, from)', 'rs, err := ExecSelect(query, query.from)'))
+
+v('C04', 'tocatalog-hands-idents-exchanged', 'c04.side-plumbing', (J, 'columns, err := extractJoinColumns(ident, identRight, joinExpr)', 'columns, err := extractJoinColumns(identRight, ident, joinExpr)'))
+v('C04', 'newjoin-ident-fields-crossed', 'c04.side-plumbing', (J, 'join.leftIdent, join.rightIdent = leftIdent, rightIdent', 'join.leftIdent, join.rightIdent = rightIdent, leftIdent'))
+v('C04', 'buildjoin-idents-exchanged', 'c04.side-plumbing', (P, 'rs, err := ExecJoin(query, left.from, right.from, left.ident, right.ident,', 'rs, err := ExecJoin(query, left.from, right.from, right.ident, left.ident,'))
+v('C04', 'bucket-restarted-for-a-present-key', 'c04.bucket-once', (J, """		if _, ok := hashedTable.Keys[hash]; !ok {
+			hashedTable.Rows[hash] = make([]*any, 0)""", """		if _, ok := hashedTable.Rows[hash]; ok {
+			hashedTable.Rows[hash] = make([]*any, 0)"""))
